@@ -4,3 +4,4 @@ pub mod gen;
 pub mod refmodel;
 pub mod corpus;
 pub mod jsmini;
+pub mod lexers;
